@@ -449,12 +449,28 @@ func (v *Verifier) finish(r *Root, e *Enc) {
 	}
 	e.st = final
 	env := &SpecEnv{e: e, vars: vars, cur: final, old: map[string]string{}, errCtx: ct.Key + " ensures", noLocals: true}
-	for i, en := range ct.Ensures {
+	ensList := ct.Ensures
+	if debugSplit {
+		// debugging aid (-split): one obligation per top-level conjunct of each postcondition
+		ensList = nil
+		for _, en := range ct.Ensures {
+			parts := splitConj(en.E)
+			for pi, pe := range parts {
+				c := *en
+				c.E = pe
+				if len(parts) > 1 {
+					c.Tags = []string{fmt.Sprintf("%s.c%d", en.Name(), pi+1)}
+				}
+				ensList = append(ensList, &c)
+			}
+		}
+	}
+	for i, en := range ensList {
 		name := fmt.Sprintf("%s#ensures@%s", r.fnShort, en.Name())
 		if en.Name() == "" {
 			name = fmt.Sprintf("%s#ensures@wf%d", r.fnShort, i+1)
 		}
-		if len(e.rets) > 1 && len(e.rets) <= 12 {
+		if len(e.rets) > 1 && len(e.rets) <= 48 {
 			// one obligation per return site (in control-flow order): smaller goals than the ite-merged result
 			for k, rt := range e.rets {
 				rvars := map[string]SV{}
@@ -584,4 +600,21 @@ func (v *Verifier) lookupGlobalVar(fn *ssa.Function, name string) string {
 		}
 	}
 	return ""
+}
+
+var debugSplit bool
+
+// splitConj: A ==> (B1 && B2) becomes [A ==> B1, A ==> B2]; used only by the -split debugging flag.
+func splitConj(e *SExpr) []*SExpr {
+	if e.Op == "bin" && e.S == "&&" {
+		return append(splitConj(e.Args[0]), splitConj(e.Args[1])...)
+	}
+	if e.Op == "bin" && e.S == "==>" {
+		var out []*SExpr
+		for _, r := range splitConj(e.Args[1]) {
+			out = append(out, &SExpr{Op: "bin", S: "==>", Args: []*SExpr{e.Args[0], r}})
+		}
+		return out
+	}
+	return []*SExpr{e}
 }
